@@ -21,7 +21,7 @@ from graphtage.tree import CompoundEdit
 
 P0 = sched.DEFAULT_PRINTER
 MACROS = ["diff_quiet", "diff_clock", "contexts", "contexts_quiet", "edited_cost_quiet", "exhaust_no_bounds",
-          "bounds_twice"]
+          "bounds_twice", "cli_status"]
 
 
 class Sink:
@@ -114,7 +114,7 @@ class C05:
                   "stubbed": ["tqdm monitor thread (disabled)"]}
     PROBES = ["compound_tightened_twice_without_bounds_read", "tighten_after_cleanup", "generator_suspended",
               "generator_resumed", "quiet_flipped_midrun", "bar_rendered_under_jumped_clock", "rendered_colour",
-              "rendered_tty", "macro_diff_quiet", "macro_contexts", "root_compound"]
+              "rendered_tty", "macro_diff_quiet", "macro_contexts", "macro_cli_status", "root_compound"]
 
     # ------------------------------------------------------------------ generation
     def gen_case(self, seed, tier, index):
@@ -296,6 +296,8 @@ class C05:
                 raise Violation("script-differs", name,
                                 f"get_all_edit_contexts() lists {got} but the reference script's non-zero leaf edits "
                                 f"are {want}")
+        elif name == "cli_status":
+            self._cli_status(wl, run, log, counters)
         elif name in ("exhaust_no_bounds", "bounds_twice"):
             P0.quiet = False
             s = sched.Session(wl, log, counters)
@@ -317,6 +319,67 @@ class C05:
         else:
             raise ValueError(name)
 
+    def _cli_status(self, wl, run, log, counters):
+        """The command line under every status setting: progress / status output must not change what is printed on
+        stdout nor the exit status (stdout goes through the buffered StatusWriter path because it *is* fd 1)."""
+        import logging
+        import os
+        import shutil
+        import tempfile
+        from .. import gen
+        from graphtage.__main__ import main as gmain
+        fam = wl["family"]
+        ser = {"json": lambda v: json_dumps(v), "yaml": lambda v: gen.to_yaml(_Fixed(), v),
+               "plist": lambda v: gen.to_plist(None, v), "xml": lambda v: gen.xml_text(v),
+               "csv": lambda v: "\n".join(",".join(r) for r in v) + "\n"}.get(fam)
+        if ser is None or (fam == "csv" and any("," in c or '"' in c or "\n" in c for r in wl["a"] + wl["b"] for c in r)):
+            log.add("macro", "cli_status", "skipped")
+            return
+        ext = {"json": ".json", "yaml": ".yaml", "plist": ".plist", "xml": ".xml", "csv": ".csv"}[fam]
+        d = tempfile.mkdtemp(prefix="g5-", dir="/dev/shm" if os.path.isdir("/dev/shm") else None)
+        try:
+            pa, pb = os.path.join(d, "a" + ext), os.path.join(d, "b" + ext)
+            with open(pa, "w", encoding="utf-8") as f:
+                f.write(ser(wl["a"]))
+            with open(pb, "w", encoding="utf-8") as f:
+                f.write(ser(wl["b"]))
+            opts = []
+            if not wl["opts"]["allow_key_edits"]:
+                opts.append("-k")
+            if not wl["opts"]["allow_list_edits"]:
+                opts.append("-l")
+            elif not wl["opts"]["allow_list_edits_when_same_length"]:
+                opts.append("-ll")
+            outcomes = []
+            for status in ([], ["--no-status"], ["--quiet"]):
+                hygiene()
+                root = logging.getLogger()
+                for h in list(root.handlers):
+                    root.removeHandler(h)
+                SEAMS.clock.configure(run.get("clock", "frozen"))
+                exc = None
+                rc = None
+                try:
+                    rc = gmain(["graphtage", "--no-color"] + status + opts + [pa, pb])
+                except core.RunTimeout:
+                    raise
+                except BaseException as e:
+                    if "outside-graphtage" in core.graphtage_site(e) and not isinstance(e, (SystemExit, RecursionError)):
+                        raise
+                    exc = core.graphtage_site(e)
+                outcomes.append((status, rc, exc, SEAMS.out.since(0)))
+            counters["probe.macro_cli_status"] = counters.get("probe.macro_cli_status", 0) + 1
+            log.add("macro", "cli_status", [(o[1], o[2], len(o[3])) for o in outcomes])
+            base = outcomes[0]
+            for o in outcomes[1:]:
+                if o[1:] != base[1:]:
+                    raise Violation("cli-status-differs", "cli_status",
+                                    f"graphtage {opts} with {o[0]} gave rc={o[1]} exc={o[2]} stdout={o[3][:500]!r} but with "
+                                    f"{base[0]} rc={base[1]} exc={base[2]} stdout={base[3][:500]!r}")
+        finally:
+            shutil.rmtree(d, ignore_errors=True)
+            hygiene()
+
     # ------------------------------------------------------------------ shrinking
     def shrink_candidates(self, case):
         runs = case["runs"]
@@ -335,6 +398,21 @@ class C05:
                     yield dict(case, runs=[dict(r, **{k: simple})])
         elif len(runs) == 1 and runs[0].get("clock") != "frozen":
             yield dict(case, runs=[dict(runs[0], clock="frozen")])
+
+
+def json_dumps(v):
+    import json
+    return json.dumps(v, ensure_ascii=False)
+
+
+class _Fixed:
+    """A stand-in PRNG for serialisers that want one: always the first choice."""
+
+    def choice(self, seq):
+        return seq[0]
+
+    def random(self):
+        return 0.99
 
 
 def render_outcome(family, ret, ansi, tty, quiet):
